@@ -792,6 +792,9 @@ def run(ctx):
         "round(timeout*1e6) of the watchdog is not modelled (timeouts are whole microseconds given as the nearest double); "
         "logging as 'a WARNING record reaches a handler'; joystick/clock/logging are the environment of the models")
     ctx.prove()
+    # the model functions, regenerated from the current source (fail-closed translator harness/pytr.py)
+    from . import c19_translate
+    c19_translate.obligation(ctx)
     env = Env()
     try:
         return _run(ctx, env)
